@@ -1,8 +1,11 @@
-(** C15: the known bypasses of the cron hooks (finding D28), each closed by vm_compute. *)
+(** C15: examples (finding D28 is repaired: no refutation witness is left).
+    The former bypasses of the cron hooks, each closed by vm_compute, now show
+    the registry following the state. *)
 From Verif Require Import Json Outcome State CronHooks CronHooksSpec CronHooksProofs.
-Definition overwrite_keeps_job := overwrite_keeps_job_counterexample.
-Definition cascade_keeps_job := cascade_keeps_job_counterexample.
-Definition expiry_keeps_job := expiry_keeps_job_counterexample.
-Definition linear_clear_keeps_jobs := linear_clear_keeps_jobs_counterexample.
-Definition linear_load_misses_jobs := linear_load_misses_jobs_counterexample.
-Definition direct_histories_exist := direct_history_satisfiable.
+Definition overwrite_unschedules := overwrite_unschedules_example.
+Definition cascade_unschedules := cascade_unschedules_example.
+Definition expiry_unschedules := expiry_unschedules_example.
+Definition clear_unschedules := clear_unschedules_example.
+Definition load_reregisters := load_reregisters_example.
+Definition load_drops_expired := load_drops_expired_example.
+Definition history_with_every_path := history_example.
